@@ -59,7 +59,7 @@ def write_files(sc, work):
                   h=np.array(sc["H"], float), hc=0.0,
                   dx=sc.get("dx", 128.0) * (2.0 if (n > 0 and sc.get("grid_variant_in_later_files")) else 1.0), dy=sc.get("dy"),
                   U=U, V=V, S=S, W=W, pack=(2.0 ** -10 if sc["pack"] else None),
-                  spack=((1.0, 0.0) if sc.get("spack") else None))
+                  spack=((0.5, 100.0) if sc.get("spack") else None))      # scalar packed with a non-trivial scale and offset
         names.append(name)
     return names
 
